@@ -2,6 +2,7 @@
 from __future__ import annotations
 
 import os
+import re
 import traceback
 
 from . import env
@@ -12,6 +13,7 @@ from adaptix import load_error as le  # noqa: E402
 from adaptix.struct_trail import get_trail  # noqa: E402
 
 _SRC = os.path.realpath(env.REPO_SRC)
+_DIGITS = re.compile(r"\d+")
 
 
 def exc_site(e: BaseException) -> str:
@@ -21,7 +23,7 @@ def exc_site(e: BaseException) -> str:
     for fs in traceback.extract_tb(tb):
         fn = fs.filename
         if fn.startswith("<adaptix generated"):
-            site = f"<generated>:{fs.name}"
+            site = "<generated>:" + _DIGITS.sub("N", fs.name)
         else:
             rp = os.path.realpath(fn) if os.path.exists(fn) else fn
             if rp.startswith(_SRC):
